@@ -33,9 +33,9 @@ func ruleCharClasses(c *Ctx, rule string, keys ...string) {
 		name   string
 		prefix bool // the probe follows a ':'
 	}{
-		"syntax.MatchDigit":      {isASCIIDigit, "[0-9]", false},
-		"syntax.MatchWord":       {isASCIIWord, "[0-9A-Za-z]", false},
-		"mux.validOptionalPort":  {isASCIIDigit, "[0-9]", true},
+		"syntax.MatchDigit":     {isASCIIDigit, "[0-9]", false},
+		"syntax.MatchWord":      {isASCIIWord, "[0-9A-Za-z]", false},
+		"mux.validOptionalPort": {isASCIIDigit, "[0-9]", true},
 	}
 	for _, k := range keys {
 		sp, ok := specs[k]
